@@ -588,5 +588,9 @@ func opCombo(a map[string]interface{}) (string, string, interface{}) {
 		lp, rp = "{", "}"
 	}
 	n, out, err := parser.ParseIntoNodeTree(aStr(a, "text"), aBool(a, "nested"), lp, rp)
+	if aBool(a, "retry") && err.ErrorCode == tree.PARSING_ERROR_LOGICAL_OPERATOR_OUTSIDE_COMBINATION {
+		// parseComponent's second attempt: the same content in parentheses
+		n, out, err = parser.ParseIntoNodeTree(lp+aStr(a, "text")+rp, aBool(a, "nested"), lp, rp)
+	}
 	return "ok", "", J{"node": comboShow(n, 0), "out": out, "code": err.ErrorCode}
 }
